@@ -261,3 +261,35 @@ def calls_in(node, name=None):
             if name is None or nm == name:
                 out.append(n)
     return out
+
+
+def resolve_guard(fn, expr, pol=True, depth=0):
+    """Look through the usual spellings of a guard: a local flag assigned exactly once (`ok = x < tol; if ok:`), `bool(...)`,
+    `not ...`, and mirrored comparisons.  Returns (expr, polarity) with expr a Compare written with < / <= / == / != where
+    possible (a > b is returned as b < a)."""
+    if depth > 6:
+        return expr, pol
+    if isinstance(expr, ast.Name):
+        defs = [n.value for n in ast.walk(fn) if isinstance(n, ast.Assign) and len(n.targets) == 1 and isinstance(n.targets[0], ast.Name) and n.targets[0].id == expr.id]
+        defs += [n.value for n in ast.walk(fn) if isinstance(n, ast.AnnAssign) and isinstance(n.target, ast.Name) and n.target.id == expr.id and n.value is not None]
+        if len(defs) == 1:
+            return resolve_guard(fn, defs[0], pol, depth + 1)
+        return expr, pol
+    if isinstance(expr, ast.Call) and isinstance(expr.func, ast.Name) and expr.func.id == "bool" and len(expr.args) == 1:
+        return resolve_guard(fn, expr.args[0], pol, depth + 1)
+    if isinstance(expr, ast.UnaryOp) and isinstance(expr.op, ast.Not):
+        return resolve_guard(fn, expr.operand, not pol, depth + 1)
+    if isinstance(expr, ast.Compare) and len(expr.ops) == 1:
+        op, a, b = expr.ops[0], expr.left, expr.comparators[0]
+        if isinstance(op, (ast.Gt, ast.GtE)):
+            expr = ast.Compare(left=b, ops=[ast.Lt() if isinstance(op, ast.Gt) else ast.LtE()], comparators=[a])
+        if not pol:
+            # negate: not (a < b) == b <= a ; not (a <= b) == b < a ; not == is != ...
+            op, a, b = expr.ops[0], expr.left, expr.comparators[0]
+            neg = {ast.Lt: (ast.LtE, True), ast.LtE: (ast.Lt, True), ast.Eq: (ast.NotEq, False), ast.NotEq: (ast.Eq, False)}.get(type(op))
+            if neg is not None:
+                newop, swap = neg
+                expr = ast.Compare(left=b if swap else a, ops=[newop()], comparators=[a if swap else b])
+                pol = True
+        return expr, pol
+    return expr, pol
